@@ -39,8 +39,8 @@ ASSUMPTIONS = [
     "does not say which pairs must be comparable, only that the answer is order independent",
 ]
 TIERS = {
-    "quick": {"per_pair": 24, "budget_s": 100, "registry_cases": 60, "registry_budget_s": 15},
-    "thorough": {"per_pair": 600, "budget_s": 1500, "registry_cases": 3000, "registry_budget_s": 200},
+    "quick": {"per_pair": 24, "budget_s": 100, "registry_cases": 150, "registry_budget_s": 20},
+    "thorough": {"per_pair": 600, "budget_s": 1500, "registry_cases": 5000, "registry_budget_s": 250},
 }
 
 # ---- reference unit system ---------------------------------------------------------------------
@@ -97,8 +97,9 @@ def same_quantity(ua, ub, REF=None) -> bool:
 
 
 def units():
+    """supported units, without the scratch units an earlier shard of this worker process added in its registry scenarios"""
     from openpectus.lang.exec import units as U
-    return U.get_supported_units()
+    return [u for u in U.get_supported_units() if u is None or not re.match(r"^xu[a-z]+$", u)]
 
 
 # ---- oracle on one case -------------------------------------------------------------------------
@@ -190,6 +191,10 @@ ADDABLE = {  # quantity -> base unit used in the relation (factor-only quantitie
 }
 
 
+_FROZEN: list = []
+_REG_COUNTER = [0]
+
+
 def _registry_child(case):
     from openpectus.lang.exec import units as U
     ref = dict(REF)
@@ -243,14 +248,36 @@ def _registry_child(case):
     return out
 
 
-def check_registry_case(case) -> list[Violation]:
-    import os, pickle
+def _rename_units(case, mapping):
+    """the same scenario with its added units renamed (names are process-wide and cannot be removed again)"""
+    def r(u):
+        return mapping.get(u, u)
+    return {"kind": "registry", "warm": [r(u) for u in case.get("warm", [])],
+            "adds": [dict(a, unit=r(a["unit"]), **({"then_query": [r(u) for u in a["then_query"]]} if "then_query" in a else {})) for a in case["adds"]],
+            "pairs": [dict(p_, ua=r(p_["ua"]), ub=r(p_["ub"])) for p_ in case["pairs"]]}
+
+
+def _alpha(n: int) -> str:
+    out = ""
+    while True:
+        out = "abcdefghijklmnopqrstuvwxyz"[n % 26] + out
+        n = n // 26 - 1
+        if n < 0:
+            return out
+
+
+def check_registry_case(case, fork: bool = True) -> list[Violation]:
+    import gc, os, pickle
+    if not _FROZEN:
+        gc.collect()
+        gc.freeze()           # keep the parent's long-lived objects out of the child's (and our own) collections
+        _FROZEN.append(True)
     try:
         adds = case["adds"]
         assert isinstance(adds, list) and adds and isinstance(case["pairs"], list)
         names = set()
         for a in adds:
-            assert re.match(r"^xu[a-z]{1,3}$", a["unit"]) and a["unit"] not in names
+            assert re.match(r"^xu[a-z]{1,6}$", a["unit"]) and a["unit"] not in names
             names.add(a["unit"])
             if a.get("custom_quantity"):
                 assert re.match(r"^xq[a-z]{1,3}$", a["custom_quantity"])
@@ -260,11 +287,17 @@ def check_registry_case(case) -> list[Violation]:
             assert _DEC_RE.match(pr["va"]) and _DEC_RE.match(pr["vb"])
     except (AssertionError, KeyError, TypeError, ValueError, ZeroDivisionError):
         return []   # outside the domain (shrinker)
+    if not fork:
+        # generation path: the scenario runs in this process under unit names never used before in it (the caller renames);
+        # a reported case is re-validated through the forked path by the framework (replay / shrinking)
+        return [Violation(v.sig, v.msg, case) for v in _registry_child(case)]
     r, w = os.pipe()
     pid = os.fork()
     if pid == 0:
         code = 0
         try:
+            import gc
+            gc.disable()      # a collection in the child would touch (copy-on-write) every page of the inherited heap
             os.close(r)
             res = _registry_child(case)
             with os.fdopen(w, "wb") as f:
@@ -385,14 +418,29 @@ def run_shard(col, cfg):
     mine = pairs[col.shard::col.nshards]
     col.extra["unit_pairs_enumerated"] = len(mine)
 
+    n_reg = _REG_COUNTER     # per process: a worker may run several shards
+
     def reg_body(case):
-        vs = check_registry_case(case)
+        # fresh unit names per scenario: additions to the process-wide registry cannot be undone
+        mapping = {}
+        for a in case["adds"]:
+            mapping[a["unit"]] = "xu" + _alpha(n_reg[0])
+            n_reg[0] += 1
+        case = _rename_units(case, mapping)
+        vs = check_registry_case(case, fork=False)
         warmed = any("quantity" in a and any(REF.get(w, ("",))[0] == REF[ADDABLE[a["quantity"]]][0] for w in case["warm"]) for a in case["adds"])
         col.record(case, True, classes=["registry", "registry:warm-query-of-same-quantity" if warmed else "registry:cold",
                                         "registry:adds=%d" % len(case["adds"])], violations=vs)
 
     # registry scenarios run first (own share of the budget): the child then sees exactly the generated warm-up queries
+    import time as _time
+    overall = col.deadline
+    col.deadline = min(overall, _time.monotonic() + float(cfg.get("registry_budget_s", 15)))   # own share of the budget
     hyp_run(registry_cases(), reg_body, cfg["registry_cases"], shard_seed(col.seed, col.shard) * 10000 + 9999, col)
+    registry_cut = col.budget_exhausted
+    col.deadline, col.budget_exhausted = overall, False
+    if registry_cut:
+        col.count("registry-phase-cut-by-its-budget")
 
     for i, (ua, ub) in enumerate(mine):
         if col.expired():
